@@ -126,8 +126,13 @@ class ScopeContext:
                     exc_tb=exc_tb,
                 )
 
+        except CancelledError as exc:
+            # cancelled while disposing - it might be the task group cancelling this task due to
+            # a failed task, the group recognizes its own request and propagates only the other
+            exc_type, exc_val, exc_tb = type(exc), exc, exc.__traceback__
+
         except BaseException as exc:
-            # disposing failed or was cancelled - remaining steps have to know about it
+            # disposing failed - remaining steps have to know about it
             exc_type, exc_val, exc_tb = type(exc), exc, exc.__traceback__
             raise
 
